@@ -1,4 +1,5 @@
 import IpcModel.Interleave.Bridge
+import IpcModel.Interleave.Att
 /-!
 # C02 — messages are delivered exactly once, whole, and in the order they were sent
 
@@ -56,5 +57,12 @@ theorem C02_hb (sys : Nat) (lens : List Nat) (threads : List (List Nat)) (hsys :
 example : (run (init 4608 [13000, 100] [[0], [1]])
     [.s 0, .s 0, .s 1, .s 0, .s 1, .r, .r, .s 0, .r, .r]).map (fun st => (st.msgs.map (·.rs), st.firstOrder))
     = some ([.delivered 13000, .delivered 100], [0, 1]) := by decide
+
+/-- **C02_whole_with_attachments** — "as one whole message" includes what is attached: over all schedules the descriptors returned
+with each delivered message are exactly the ones it was sent with (see `C12_attachments_all_schedules`). -/
+theorem C02_whole_with_attachments (atts : Nat → List Nat) (sys : Nat) (lens : List Nat) (threads : List (List Nat)) (as : List Act) :
+    (RecvAtt.feedAll RecvAtt.codeCfg ⟨[], none, []⟩ ((routs (init sys lens threads) as).flatMap (evOf atts))).out
+      = ((routs (init sys lens threads) as).flatMap delivOf).map atts :=
+  att_init atts sys lens threads as
 
 end C02
